@@ -1,0 +1,95 @@
+//go:build verif
+
+package dht
+
+import (
+	"context"
+	"sort"
+	"time"
+
+	"github.com/anacrolix/dht/v2/int160"
+	"github.com/anacrolix/dht/v2/krpc"
+)
+
+// Read-only observation hooks for the verification harness in /verif. Compiled only with
+// -tags verif. Nothing here mutates server state except VerifQuestionablePing, which is an
+// exported alias of an existing unexported method.
+
+type VerifNode struct {
+	Bucket          int
+	Id              [20]byte
+	Addr            string
+	IP              []byte
+	Port            int
+	LastGotQuery    time.Time
+	LastGotResponse time.Time
+	FailedPing      bool
+	IsGood          bool
+	IsBad           bool
+}
+
+type VerifTableSnapshot struct {
+	Root         [20]byte
+	Nodes        []VerifNode
+	BucketLens   [160]int
+	AddrIndex    []string // sorted "addr|idhex" entries of the table's address index
+	Transactions int
+	K            int
+}
+
+func (s *Server) VerifTable() (ret VerifTableSnapshot) {
+	s.mu.Lock()
+	defer s.mu.Unlock()
+	ret.Root = s.table.rootID.AsByteArray()
+	ret.K = s.table.k
+	for bi := range s.table.buckets {
+		b := &s.table.buckets[bi]
+		ret.BucketLens[bi] = b.Len()
+		for n := range b.nodes {
+			ret.Nodes = append(ret.Nodes, VerifNode{
+				Bucket:          bi,
+				Id:              n.Id.AsByteArray(),
+				Addr:            n.Addr.String(),
+				IP:              append([]byte(nil), n.Addr.IP()...),
+				Port:            n.Addr.Port(),
+				LastGotQuery:    n.lastGotQuery,
+				LastGotResponse: n.lastGotResponse,
+				FailedPing:      n.failedLastQuestionablePing,
+				IsGood:          s.IsGood(n),
+				IsBad:           s.nodeIsBad(n),
+			})
+		}
+	}
+	sort.Slice(ret.Nodes, func(i, j int) bool {
+		a, b := ret.Nodes[i], ret.Nodes[j]
+		if a.Bucket != b.Bucket {
+			return a.Bucket < b.Bucket
+		}
+		if a.Id != b.Id {
+			return string(a.Id[:]) < string(b.Id[:])
+		}
+		return a.Addr < b.Addr
+	})
+	for as, ids := range s.table.addrs {
+		for id := range ids {
+			ret.AddrIndex = append(ret.AddrIndex, as+"|"+id.String())
+		}
+	}
+	sort.Strings(ret.AddrIndex)
+	ret.Transactions = s.transactions.NumActive()
+	return
+}
+
+// Exported alias of questionableNodePing, the only writer of the failed-ping flag.
+func (s *Server) VerifQuestionablePing(ctx context.Context, addr Addr, id krpc.ID) QueryResult {
+	return s.questionableNodePing(ctx, addr, id)
+}
+
+func VerifBucketIndex(root, id int160.T) int {
+	tbl := table{rootID: root}
+	return tbl.bucketIndex(id)
+}
+
+func VerifRandomIdInBucket(root int160.T, bucketIndex int) int160.T {
+	return randomIdInBucket(root, bucketIndex)
+}
